@@ -1,3 +1,7 @@
 import Rl.Text
+import Rl.Seg
+import Rl.Wire
 import Rl.History
 import Rl.Spec.History
+import Rl.Lemmas.History
+import Rl.Props.C09
